@@ -115,6 +115,18 @@ class StepOps:
             return list(self._get(env, v))
         if isinstance(v, tuple) and v[:1] == ("SEQ",):
             return list(v[1])
+        if isinstance(v, tuple) and v and any(isinstance(x, tuple) and len(x) == 2 and x[0] == "*" for x in v):
+            # a tuple display with ``*xs`` entries: the entries with every finite ``xs`` spliced in
+            out_: List[Any] = []
+            for x in v:
+                if isinstance(x, tuple) and len(x) == 2 and x[0] == "*":
+                    inner = self._elements(x[1], env)
+                    if inner is None:
+                        return None
+                    out_.extend(inner)
+                else:
+                    out_.append(x)
+            return out_
         if isinstance(v, tuple) and v[:1] == ("enum",):
             inner = self._elements(v[1], env)
             return None if inner is None else [(v[2] + i, x) for i, x in enumerate(inner)]
@@ -254,6 +266,15 @@ class StepOps:
                 if el is not None and all(self._is_iter(x) for x in el):
                     return ("SEQ", tuple(el))
             return UNKNOWN
+        if last == "isinstance" and len(node.args) == 2 and len(args) == 2 and isinstance(args[0], tuple) and args[0][:1] == ("IT",):
+            # what kind of object a source is: an iterator, or (the cell says so) a collection that produces its items when
+            # it is iterated; never a list / tuple / sequence (those are finished objects, the model's sources are lazy)
+            names = [norm(x).split(".")[-1] for x in (node.args[1].elts if isinstance(node.args[1], ast.Tuple) else [node.args[1]])]
+            kinds = {"iterator": {"Iterable", "Iterator"}, "collection": {"Iterable", "Collection", "Sized", "Container"}}
+            known = {"Iterable", "Iterator", "Collection", "Sized", "Container", "Sequence", "MutableSequence", "list", "tuple",
+                     "Reversible", "Set", "Mapping", "AsyncIterable", "AsyncIterator", "AsyncGenerator", "Generator"}
+            if all(n_ in known for n_ in names):
+                return any(n_ in kinds.get(getattr(self, "flavour", "iterator"), ()) for n_ in names)
         if last == "set" and self._resolved_kind(node.func) in ("builtin", "stdlib") and not node.keywords and len(node.args) <= 1:
             # a mutable set object of the model: a heap cell that keeps one of every element (``.add`` below)
             el = self._elements(args[0], env) if node.args else []
@@ -310,7 +331,21 @@ class StepOps:
 
     def other(self, e, env, ev):
         if isinstance(e, ast.Starred):
-            return ("*", ev.eval(e.value, env))
+            v = ev.eval(e.value, env)
+            if isinstance(v, tuple) and v[:1] == ("IT",):
+                # ``*source``: the source is asked until it reports its end, here and now
+                got = []
+                while True:
+                    x = self._pull(v, env)
+                    if _is_end(x):
+                        break
+                    if isinstance(x, tuple) and x[:1] == ("@raise",):
+                        return UNKNOWN
+                    got.append(x)
+                    if len(got) > 50:
+                        return UNKNOWN
+                return ("*", ("SEQ", tuple(got)))
+            return ("*", v)
         if isinstance(e, ast.List):
             # a list display, ``[*xs]`` included: a new list object
             out_: List[Any] = []
